@@ -31,7 +31,7 @@ theorem handlesList_append_ff (a b : List HTree) :
 theorem handle_mem_handles_ff (t : HTree) : t.handle ∈ handles t := by
   cases t; simp [handles, HTree.handle]
 
-theorem handles_eq (t : HTree) : handles t = t.handle :: handlesList t.kids := by
+theorem ff_handles_eq (t : HTree) : handles t = t.handle :: handlesList t.kids := by
   cases t; simp [handles, HTree.handle, HTree.kids]
 
 theorem mem_handlesList_ff {h : Nat} {ts : List HTree} :
@@ -103,14 +103,14 @@ mutual
       have hk : k.handle ≠ h := fun e => hn.1 (e ▸ handle_mem_handles_ff k)
       rw [if_neg hk]
       have : h ∉ handlesList k.kids := by
-        intro hm; apply hn.1; rw [handles_eq]; exact List.mem_cons_of_mem _ hm
+        intro hm; apply hn.1; rw [ff_handles_eq]; exact List.mem_cons_of_mem _ hm
       rw [ffx_ctxBelow_none_of_not_mem h k this]
       exact ffx_ctxKids_none_of_not_mem h p (left ++ [k]) ks hn.2
 end
 
 theorem ffx_ctxBelow_none_of_not_mem' (h : Nat) (t : HTree) (hn : h ∉ handles t) : ctxBelow h t = none := by
   apply ffx_ctxBelow_none_of_not_mem
-  intro hm; apply hn; rw [handles_eq]; exact List.mem_cons_of_mem _ hm
+  intro hm; apply hn; rw [ff_handles_eq]; exact List.mem_cons_of_mem _ hm
 
 mutual
   theorem mapAt_of_not_mem_ff (h : Nat) (g : HTree → HTree) : ∀ t : HTree, h ∉ handles t → mapAt h g t = t
@@ -150,7 +150,7 @@ mutual
       have hk : k.handle ≠ h := fun e => hn.1 (e ▸ handle_mem_handles_ff k)
       rw [if_neg hk]
       have : h ∉ handlesList k.kids := by
-        intro hm; apply hn.1; rw [handles_eq]; exact List.mem_cons_of_mem _ hm
+        intro hm; apply hn.1; rw [ff_handles_eq]; exact List.mem_cons_of_mem _ hm
       rw [replaceBelow_of_not_mem_ff h g k this, replaceKids_of_not_mem_ff h g ks hn.2]
 end
 
@@ -161,7 +161,7 @@ theorem ffx_map_replaceBelow_of_not_mem (h : Nat) (g : HTree → List HTree) (ks
   | cons k ks ih =>
     simp only [handlesList, List.mem_append, not_or] at hn
     have : h ∉ handlesList k.kids := by
-      intro hm; apply hn.1; rw [handles_eq]; exact List.mem_cons_of_mem _ hm
+      intro hm; apply hn.1; rw [ff_handles_eq]; exact List.mem_cons_of_mem _ hm
     simp [replaceBelow_of_not_mem_ff h g k this, ih hn.2]
 
 mutual
